@@ -20,16 +20,31 @@ def frontEnd (row : InstrRow) (text : Str) : R Operand :=
   | .error e => .error e
 
 /-- operand text of an instruction of row `row` to `(size, bytes)`: `createOperand`, `resolveOperand` (empty
-symbol table), `translateOperand`, and `stmtBytes` of a statement carrying the package -/
+symbol table), `translateOperand`, `fitWidth` on the statement that carries row, operand and package, and
+`stmtBytes` of the fitted statement; `none` = rejected at any of these stages -/
 def encodeText (row : InstrRow) (text : Str) : Option (Nat × Bytes) :=
   match frontEnd row text with
   | .ok o =>
     match translateOperand o row with
-    | .ok pkg => (stmtBytes { (default : Stmt) with pkg := pkg }).map (fun b => (pkg.size, b))
+    | .ok pkg =>
+      (match fitWidth (mkStmt row o pkg) with
+       | .ok s' => (stmtBytes s').map (fun b => (pkg.size, b))
+       | _ => none)
     | .error _ => none
   | .error _ => none
 
-/-- `asmOne` (used for the kernel-checked findings of Props/C01.lean) is `encodeText` after the row lookup -/
+theorem fitted_mkStmt (row : InstrRow) (o : Operand) (pkg : Pkg) (f : Bytes → Nat × Bytes) :
+    (match fitWidth (mkStmt row o pkg) with
+     | .ok s' => (stmtBytes s').map f
+     | _ => none) = (fittedBytes row pkg).map f := by
+  rw [fitWidth_eq]
+  show (match withFitted (mkStmt row o pkg) (fitPkg row pkg) with
+     | .ok s' => (stmtBytes s').map f
+     | _ => none) = (fittedBytes row pkg).map f
+  unfold fittedBytes
+  cases fitPkg row pkg <;> rfl
+
+/-- `asmOne` (used for the kernel-checked witnesses of Props/C01.lean) is `encodeText` after the row lookup -/
 theorem asmOne_eq_encodeText (mn operand : String) :
     asmOne mn operand = (findRow mn.toList).bind (fun row => encodeText row operand.toList) := by
   cases h1 : findRow mn.toList with
@@ -41,8 +56,11 @@ theorem asmOne_eq_encodeText (mn operand : String) :
       cases h3 : resolveOperand o row [] with
       | error e => simp [asmOne, asmOperand, encodeText, frontEnd, h1, h2, h3]
       | ok o' =>
-        cases h4 : translateOperand o' row <;>
-          simp [asmOne, asmOperand, encodeText, frontEnd, sizeAndBytes, h1, h2, h3, h4, stmtBytes_eq_pkgBytes]
+        cases h4 : translateOperand o' row with
+        | error e => simp [asmOne, asmOperand, encodeText, frontEnd, sizeAndBytes, h1, h2, h3, h4]
+        | ok pkg =>
+          simp only [asmOne, asmOperand, encodeText, frontEnd, sizeAndBytes, h1, h2, h3, h4, Option.bind_some]
+          exact (fitted_mkStmt row o' pkg _).symm
 
 /-- the text-level statement of C01 (ii): the operand text assembles to `size` bytes which the datasheet decoder
 reads back as the operation of the row with operand `x`, consuming all of them -/
@@ -52,13 +70,20 @@ def TextEncodes (r : InstrRow) (text : Str) (x : Spec.MC6809.Operand) : Prop :=
 
 theorem textEncodes_of {r : InstrRow} {text : Str} {o : Operand} {x : Spec.MC6809.Operand}
     (hf : frontEnd r text = .ok o) (he : Encodes o r x) : TextEncodes r text x := by
-  obtain ⟨pkg, bytes, ht, hb, hl, hd⟩ := he
+  obtain ⟨pkg, bytes, ht, _, hb, hl, hd⟩ := he
   refine ⟨pkg.size, bytes, ?_, hl, by rw [← hl]; exact hd⟩
-  simp [encodeText, hf, ht, hb { (default : Stmt) with pkg := pkg } rfl]
+  obtain ⟨s', hf', hb'⟩ := hb (mkStmt r o pkg) rfl rfl rfl
+  simp [encodeText, hf, ht, hf', hb']
 
 theorem encodeText_none_of {r : InstrRow} {text : Str} {o : Operand} {e : Exn}
     (hf : frontEnd r text = .ok o) (ht : translateOperand o r = .error e) : encodeText r text = none := by
   simp only [encodeText, hf, ht]
+
+/-- a statement the front end builds and `translate` accepts, but `fitWidth` refuses -/
+theorem encodeText_none_of_fit {r : InstrRow} {text : Str} {o : Operand} {pkg : Pkg}
+    (hf : frontEnd r text = .ok o) (ht : translateOperand o r = .ok pkg)
+    (hd : ∀ s : Stmt, s.row = r → s.operand = o → s.pkg = pkg → fitWidth s = .diag) : encodeText r text = none := by
+  simp only [encodeText, hf, ht, hd (mkStmt r o pkg) rfl rfl rfl]
 
 /-! ### a zero offset written out (`0,R`): translated exactly like the empty offset -/
 
@@ -161,7 +186,7 @@ theorem resolve_numeric (i : Nat) (h : Option Nat) (m : Mode) (n : Bool) (t : Sy
 theorem resolveOperand_unknown_extended (row : InstrRow) (s : Str) (i : Nat) (h : Option Nat) (n : Bool) (t : SymTab) :
     resolveOperand { kind := .unknown, text := s, value := .numeric i h .extended n } row t =
       .ok { kind := .extended, text := s, value := .numeric i h .extended n } := by
-  simp [resolveOperand, resolve_numeric, Value.isDirect, Value.isExplicitDirect, Value.mode]
+  simp [resolveOperand, resolve_numeric, Value.isDirect, Value.isExplicitDirect, Value.isExplicitExtended, Value.mode]
 
 /-- UnknownOperand with a DIRECT-mode byte becomes a DirectOperand whose value is REBUILT (hint 2) -/
 theorem resolveOperand_unknown_direct (row : InstrRow) (s : Str) {i : Nat} (h : Option Nat) (n : Bool) (t : SymTab)
@@ -170,7 +195,24 @@ theorem resolveOperand_unknown_direct (row : InstrRow) (s : Str) {i : Nat} (h : 
       .ok { kind := .direct, text := s, value := .numeric i (some 2) .direct false } := by
   have a : ¬ ((i : Int) > 65535) := by omega
   have b : ¬ ((i : Int) < 0) := by omega
-  simp [resolveOperand, resolve_numeric, Value.isDirect, Value.mode, numericOfInt, a, b, initHint, postInit, hi, Except.map]
+  simp [resolveOperand, resolve_numeric, Value.isDirect, Value.isExplicitExtended, Value.mode, numericOfInt, a, b, initHint, postInit, hi, Except.map]
+
+/-- UnknownOperand written with `>`: an ExtendedOperand whatever the value (fix A6) -/
+theorem resolveOperand_unknown_explExtended (row : InstrRow) (s : Str) (i : Nat) (h : Option Nat) (n : Bool) (t : SymTab) :
+    resolveOperand { kind := .unknown, text := s, value := .numeric i h .explExtended n } row t =
+      .ok { kind := .extended, text := s, value := .numeric i h .explExtended n } := by
+  simp [resolveOperand, resolve_numeric, Value.isExplicitExtended, Value.mode]
+
+/-- UnknownOperand written with `<`: a DirectOperand whose value is REBUILT without a size hint -/
+theorem resolveOperand_unknown_explDirect (row : InstrRow) (s : Str) {i : Nat} (h : Option Nat) (t : SymTab)
+    (hi : i < 65536) :
+    resolveOperand { kind := .unknown, text := s, value := .numeric i h .explDirect false } row t =
+      .ok { kind := .direct, text := s, value := .numeric i (if i < 256 then some 2 else none) .direct false } := by
+  have a : ¬ ((i : Int) > 65535) := by omega
+  have b : ¬ ((i : Int) < 0) := by omega
+  by_cases hlt : i < 256 <;>
+    simp [resolveOperand, resolve_numeric, Value.isDirect, Value.isExplicitDirect, Value.isExplicitExtended, Value.mode,
+      numericOfInt, a, b, initHint, postInit, hlt, Except.map]
 
 theorem resolveOperand_immediate (row : InstrRow) (s : Str) (i : Nat) (h : Option Nat) (m : Mode) (n : Bool) (t : SymTab) :
     resolveOperand { kind := .immediate, text := s, value := .numeric i h m n } row t =
@@ -325,6 +367,30 @@ theorem createV_imm_hex4 {hs : Str} (h : IsHexLit 4 hs) (is16 : Bool) :
   · rw [numericOfStr_hex4 h]
     cases is16 <;> simp [initHint]
 
+/-- `>$hh` : the explicit `>` keeps the two digits from becoming direct; EXTENDED forces hint 4 -/
+theorem createV_gt_hex2 {hs : Str} (h : IsHexLit 2 hs) (is16 : Bool) :
+    createV ('>' :: '$' :: hs) false is16 = .ok (.numeric (parseBase 16 hs) (some 4) .explExtended false) := by
+  refine create_explExtended (splitExpr_hexLit h) ?_ ?_
+  · simpa using hexLit_no_comma h
+  · rw [numericOfStr_hex2 h]
+    cases is16 <;> simp [initHint]
+
+/-- `>n` -/
+theorem createV_gt_dec {x : Str} (hx : IsDecLit x) (hv : parseBase 10 x < 65536) (is16 : Bool) :
+    createV ('>' :: x) false is16 = .ok (.numeric (parseBase 10 x) (some 4) .explExtended false) := by
+  refine create_explExtended (splitExpr_dec hx) (decLit_no_comma hx) ?_
+  rw [numericOfStr_dec hx _ _ hv]
+  cases is16 <;> simp [initHint, postInit]
+
+/-- `<n` : hint and mode depend on the row and the value, the operand is forced direct either way -/
+theorem createV_lt_dec {x : Str} (hx : IsDecLit x) (hv : parseBase 10 x < 65536) (is16 : Bool) :
+    ∃ h m, createV ('<' :: x) false is16 = .ok (.numeric (parseBase 10 x) h m false) ∧
+      (m = .explDirect ∨ (m = .direct ∧ parseBase 10 x < 256)) := by
+  have hc := create_explDirect (fuel := 3) (is16 := is16) (defExt := true) (splitExpr_dec hx) (decLit_no_comma hx)
+    (numericOfStr_dec hx _ _ hv)
+  refine ⟨_, _, hc, ?_⟩
+  cases is16 <;> by_cases hlt : parseBase 10 x < 256 <;> simp [initHint, postInit, hlt]
+
 /-- `left,right` -/
 theorem createV_leftRight {l r : Str} (hh : OperandHead (l ++ ',' :: r)) (hs : splitExpr (l ++ ',' :: r) = none)
     (hl : ',' ∉ l) (hr : ',' ∉ r) (is16 : Bool) :
@@ -384,6 +450,22 @@ theorem frontEnd_extended {s : Str} {i : Nat} {h : Option Nat} {n : Bool} (hh : 
     (hv : createV s false row.is16Bit = .ok (.numeric i h .extended n)) :
     frontEnd row s = .ok { kind := .extended, text := s, value := .numeric i h .extended n } := by
   simp [frontEnd, createOperand_unknown hf hne hh.noBracket (by decide) hv, resolveOperand_unknown_extended]
+
+/-- `>atom` : extended, the value as written -/
+theorem frontEnd_explExtended {s : Str} {i : Nat} {h : Option Nat} {n : Bool}
+    (hv : createV ('>' :: s) false row.is16Bit = .ok (.numeric i h .explExtended n)) :
+    frontEnd row ('>' :: s) = .ok { kind := .extended, text := '>' :: s, value := .numeric i h .explExtended n } := by
+  simp [frontEnd, createOperand_unknown hf (by simp) (by simp) (by decide) hv, resolveOperand_unknown_explExtended]
+
+/-- `<n` : forced direct, the value rebuilt (hint 2 below 256, none above) -/
+theorem frontEnd_explDirect_dec {x : Str} (hx : IsDecLit x) (hv : parseBase 10 x < 65536) :
+    frontEnd row ('<' :: x) =
+      .ok { kind := .direct, text := '<' :: x,
+            value := .numeric (parseBase 10 x) (if parseBase 10 x < 256 then some 2 else none) .direct false } := by
+  obtain ⟨h, m, hc, hm⟩ := createV_lt_dec hx hv row.is16Bit
+  rcases hm with rfl | ⟨rfl, hlt⟩
+  · simp [frontEnd, createOperand_unknown hf (by simp) (by simp) (by decide) hc, resolveOperand_unknown_explDirect _ _ _ _ hv]
+  · simp [frontEnd, createOperand_unknown hf (by simp) (by simp) (by decide) hc, resolveOperand_unknown_direct _ _ _ _ _ hlt, hlt]
 
 theorem frontEnd_direct {s : Str} {i : Nat} {h : Option Nat} {n : Bool} (hh : OperandHead s) (hne : s ≠ [])
     (hv : createV s false row.is16Bit = .ok (.numeric i h .direct n)) (hi : i < 256) :
